@@ -253,6 +253,15 @@ pub mod rowan {
             ensures r == tree_kind(self.tree())
         { unimplemented!() }
 
+        /// the first token of the subtree (partial contract: decided only when the first child is a token)
+        #[verifier::external_body]
+        pub fn first_token(&self) -> (r: Option<SyntaxToken>)
+            ensures
+                r is Some ==> r->Some_0.tree() is Tok,
+                tree_children(self.tree()).len() > 0 && tree_children(self.tree())[0] is Tok
+                    ==> r is Some && r->Some_0.tree() == tree_children(self.tree())[0],
+        { unimplemented!() }
+
         #[verifier::external_body]
         pub fn text(&self) -> (r: SyntaxText)
             ensures r@ == tree_text(self.tree())
@@ -278,17 +287,23 @@ pub mod rowan {
             ensures r == self.index_spec(), r < usize::MAX
         { unimplemented!() }
 
-        /// rowan: `splice_children(&self, to_delete, to_insert)` replaces the children in the range by the new
-        /// elements (panics when the range is out of bounds). MODEL: `&mut self`, see the header.
+        /// rowan 0.16.1 `splice_children(&self, to_delete, to_insert)`: detaches the children in `to_delete`, then attaches
+        /// the new elements at `to_delete.start`. Its deletion loop iterates over the children while detaching them, and
+        /// rowan's children iterator ends once the child it last yielded has been detached (see VxLiveIter below), so
+        /// at most ONE child - the first of the range - is removed, and a range starting at the end removes nothing.
+        /// The model accepts only ranges of at most one element (every use in the repository); attaching beyond the
+        /// end panics. MODEL: `&mut self`, see the header.
         #[verifier::external_body]
         pub fn splice_children(&mut self, to_delete: core::ops::Range<usize>, to_insert: Vec<SyntaxElement>)
             requires
                 old(self).tree() is Node,
-                to_delete.start <= to_delete.end <= tree_children(old(self).tree()).len(),
+                to_delete.start <= to_delete.end, to_delete.end - to_delete.start <= 1,
+                to_delete.start <= tree_children(old(self).tree()).len(),
             ensures
                 final(self).tree() == Tree::Node(tree_kind(old(self).tree()),
                     tree_children(old(self).tree()).take(to_delete.start as int) + elems_trees(to_insert@)
-                        + tree_children(old(self).tree()).skip(to_delete.end as int)),
+                        + tree_children(old(self).tree()).skip(
+                            if to_delete.end <= tree_children(old(self).tree()).len() { to_delete.end as int } else { to_delete.start as int })),
         { unimplemented!() }
 
         /// all children, nodes and tokens, in order
@@ -305,6 +320,34 @@ pub mod rowan {
     }
 }
 use rowan::{GreenNode, GreenNodeBuilder};
+
+/// `children_with_tokens()` in a loop that edits the same node. rowan's SyntaxElementChildren::next computes
+/// `last_yielded.next_sibling_or_token()` when it is called; once the last yielded child has been detached that is None
+/// and the iteration ends. The model over-approximates: the children at the time of the call, in order, and `next` may
+/// return None at any point (no promise that the sequence is exhausted). Real runs are a subset of the modelled ones as
+/// long as the loop removes only the child it was just given (the one use in the repository does).
+#[verifier::external_body]
+#[verifier::reject_recursive_types(T)]
+pub struct VxLiveIter<T> { it: Box<dyn Iterator<Item = T>> }
+impl<T> VxLiveIter<T> {
+    pub uninterp spec fn view(&self) -> Seq<T>;
+
+    #[verifier::external_body]
+    pub fn next(&mut self) -> (r: Option<T>)
+        ensures
+            r is Some ==> old(self)@.len() > 0 && r == Some(old(self)@[0]) && final(self)@ == old(self)@.skip(1),
+            r is None ==> final(self)@ == old(self)@,
+    { unimplemented!() }
+}
+/// R-method-map (per source): `n.children_with_tokens()` => `vx_children_live(&n)` in methods that edit `n` inside the loop
+#[verifier::external_body]
+pub fn vx_children_live(n: &rowan::SyntaxNode) -> (r: VxLiveIter<rowan::SyntaxElement>)
+    ensures
+        r@.len() == rowan::tree_children(n.tree()).len(),
+        r@.len() < usize::MAX,
+        forall|i: int| 0 <= i < r@.len() ==> rowan::elem_tree(#[trigger] r@[i]) == rowan::tree_children(n.tree())[i],
+{ unimplemented!() }
+
 
 impl VxDisplay for rowan::SyntaxText {
     open spec fn display_spec(&self) -> Seq<char> { self@ }
@@ -335,6 +378,10 @@ impl VxInto<rowan::SyntaxKind> for SyntaxKind {
 impl VxInto<rowan::SyntaxElement> for rowan::SyntaxNode {
     open spec fn into_ok(self, r: rowan::SyntaxElement) -> bool { r == rowan::NodeOrToken::<rowan::SyntaxNode, rowan::SyntaxToken>::Node(self) }
     fn vx_into(self) -> (r: rowan::SyntaxElement) { vx_node_into(self) }
+}
+impl VxInto<rowan::SyntaxElement> for rowan::SyntaxToken {
+    open spec fn into_ok(self, r: rowan::SyntaxElement) -> bool { r == rowan::NodeOrToken::<rowan::SyntaxNode, rowan::SyntaxToken>::Token(self) }
+    fn vx_into(self) -> (r: rowan::SyntaxElement) { rowan::NodeOrToken::Token(self) }
 }
 pub fn vx_into<S: VxInto<T>, T>(s: S) -> (r: T)
     ensures s.into_ok(r)
